@@ -274,10 +274,13 @@ def se23_classify(case):
 @st.composite
 def flat_case(draw):
     psi = draw(heading())["psi"]
-    kind = draw(st.sampled_from(["generic", "generic", "generic", "generic", "freefall", "parallel"]))
+    kind = draw(st.sampled_from(["generic", "generic", "generic", "inverted", "freefall", "parallel"]))
     m_, g_ = 2.0, 9.8
     if kind == "generic":
         a = [draw(gens.fl(-6.0, 6.0)), draw(gens.fl(-6.0, 6.0)), draw(gens.fl(-8.0, 5.0))]
+    elif kind == "inverted":
+        # downward acceleration beyond gravity: the thrust points below the horizon
+        a = [draw(gens.fl(-6.0, 6.0)), draw(gens.fl(-6.0, 6.0)), draw(gens.fl(11.0, 25.0))]
     elif kind == "freefall":
         d = np.array(draw(gens.axis())) * draw(st.sampled_from([0.0, 1e-9, 4e-7, 6e-7, 1e-5, 1e-3])) / m_
         a = list(np.array([0, 0, g_]) - d)
@@ -314,7 +317,7 @@ def check_flat(case):
     F = bz.m * (bz.g * np.array([0, 0, 1.0]) - a)
     reg, n = flat_regular(F, psi)
     R = check_quat(quat, "f_ref (%s)" % ("regular" if reg else "degenerate: thrust %.3g N, heading-aligned or zero" % n), **case)
-    tilt_ok = reg and n > 0.5 and abs(math.acos(max(-1, min(1, F[2] / n)))) < 1.4
+    tilt_ok = reg and n > 0.5 and abs(abs(math.acos(max(-1, min(1, F[2] / n)))) - PI / 2) > 0.17
     Jb = np.array([[bz.J_xx, 0, bz.J_xz], [0, bz.J_yy, 0], [bz.J_xz, 0, bz.J_zz]])
     _flat_common("f_ref", R, om, omd, Mb, float(T[0]), vb, F, bz.m, Jb, psi, v, j, reg, tilt_ok, case)
     # ---- parametric variant with the same constants must agree
@@ -333,7 +336,7 @@ def check_flat(case):
     F3 = m_ * (g_ * np.array([0, 0, 1.0]) - a2)
     reg3, n3 = flat_regular(F3, psi)
     check_rot(C3, "mr_ref_traj (%s, generated mass/inertia)" % ("regular" if reg3 else "degenerate"), **case)
-    tilt3 = reg3 and n3 > 0.5 and abs(math.acos(max(-1, min(1, F3[2] / n3)))) < 1.4
+    tilt3 = reg3 and n3 > 0.5 and abs(abs(math.acos(max(-1, min(1, F3[2] / n3)))) - PI / 2) > 0.17
     J3 = np.array([[Jx, 0, Jxz], [0, Jy, 0], [Jxz, 0, Jz]])
     _flat_common("mr_ref_traj", C3, om3.reshape(-1), omd3.reshape(-1), Mb3.reshape(-1), float(np.asarray(T3).reshape(-1)[0]),
                  vb3.reshape(-1), F3, m_, J3, psi, v, j, reg3, tilt3, case)
@@ -415,7 +418,7 @@ def build(tier):
             "formula divides by cos(roll))",
         ],
         "require_classes": {"position_control/constructed": ["branch:regular", "branch:thrust||heading", "branch:thrust<=threshold"],
-                            "flatness": ["regular", "degenerate", "kind:freefall", "kind:parallel"],
+                            "flatness": ["regular", "degenerate", "kind:freefall", "kind:parallel", "kind:inverted"],
                             "se23_position_control": ["degenerate", "regular"]},
         "matchers": MATCHERS,
     }
